@@ -16,7 +16,7 @@
         ~n = n first-parent steps, ^n = n-th parent (1-based)
      go/libraries/doltcore/sqle/database_provider.go
         databaseForRevision / revisionDbType / resolveAncestorSpec : `db/<rev>`
-          - a branch name        -> RevisionDbForBranch: the branch's WORKING set
+          - a branch name        -> RevisionDbForBranch: the branch's WORKING set (checked BEFORE tags)
           - a tag / commit hash  -> read-only database on that commit
           - <branch|tag><anc>    -> resolveAncestorSpec -> commit hash -> as above
           - <hash><anc>          -> GetRefByNameInsensitive fails: "invalid ref spec"
@@ -97,8 +97,18 @@ Definition branch_head (r : repo) (b : N) : option N :=
 Definition branch_working (r : repo) (b : N) : option dbstate :=
   match assoc b (r_branches r) with Some (_, w) => Some w | None => None end.
 
-Definition resolve_base (r : repo) (b : base) : option N :=
+(* Branch and tag names live in different ref namespaces, so a tag and a branch may share a name.  A bare name
+   resolves refs/heads before refs/tags everywhere (doltdb getHashFromCommitSpec for AS OF; revisionDbType: isBranch
+   before isTag for `db/<name>`): a tag that has a same-named branch is shadowed by the branch.  Names are numbers
+   shared by both namespaces. *)
+Definition norm_base (r : repo) (b : base) : base :=
   match b with
+  | BTag g => match assoc g (r_branches r) with Some _ => BBranch g | None => BTag g end
+  | _ => b
+  end.
+
+Definition resolve_base (r : repo) (b : base) : option N :=
+  match norm_base r b with
   | BHash c => match commit_at (r_hist r) c with Some _ => Some c | None => None end
   | BBranch b => branch_head r b
   | BTag g => assoc g (r_tags r)
@@ -140,7 +150,7 @@ Definition as_of (r : repo) (v : rev) (t : N) : ans :=
 
 (* SELECT * FROM `db/<rev>`.t   and   USE `db/<rev>`; SELECT * FROM t *)
 Definition revdb (r : repo) (v : rev) (t : N) : ans :=
-  match v with
+  match (norm_base r (fst v), snd v) with
   | (BBranch b, []) => match branch_working r b with Some w => read_state w t | None => ABadRev end
   | (BHash _, _ :: _) => ABadRev
   | (BHead, _) => ABadRev                      (* not produced by the generator *)
